@@ -6,12 +6,13 @@ import Oracle.Util
                                  every event carries the field n~i<2^vid>, vids distinct and < 60)
                                  m = number of MODEL steps (SigModel.Crash.steps, one column group `ws = [0]` per
                                  flush) that completed before the process died
-     → vis=<vids> cnt=<n> flt=<vids> rng=<vids> sum=<vids> post=<vids>+N pcnt=<n> next=<suffix>
+     → vis=<vids> cnt=<n> flt=<vids> rng=<vids> sum=<vids> post=<vids>+N pcnt=<n> rpost=<vids>+N rpcnt=<n> next=<suffix>
        sfm=<seg>:<earliest>-<latest>:<recordCount>:<col+col…>;…   sm=<seg>:<earliest>-<latest>:<recordCount>;…
        tw=<vids>|<vids>|…   tc=<n>,<n>,…   col=<name>:<vids>;…   alt=<vids>
        vis/flt/rng: events returned by `*`, by the bloom-filtered and by the range-filtered search after restart;
        cnt: `* | stats count`; sum: the events whose n the answer of `* | stats sum(n)` is the sum of;
        post/pcnt: `*` and count after the restarted process ingested and flushed one more event (N);
+       rpost/rpcnt: the same two searches once the restarted process has also ROTATED the segment it opened;
        next: suffix of the segment directory that event went to
        sfm: content of the `<seg>.sfm` of every segment directory at the moment of the crash (segment order);
        sm: the lines of segmeta.json at that moment; tw / tc: per flush i of the HISTORY (all of them, in order)
@@ -157,7 +158,7 @@ def crash (args : List String) : String :=
             let hang := (answer evs fs allQ).isNone || wins.any (fun q => (answer evs fs q).isNone) ||
               xcols.any (fun c => (answer evs fs { lo := allLo, hi := allHi, col := some c }).isNone)
             if hang then "never-returns" else
-            s!"vis={showVids vis} cnt={cnt} flt={showVids vis} rng={showVids vis} sum={showVids sm} post={showVids vis}+N pcnt={cnt + 1} next={nextSuffix fs}{tornMark}" ++
+            s!"vis={showVids vis} cnt={cnt} flt={showVids vis} rng={showVids vis} sum={showVids sm} post={showVids vis}+N pcnt={cnt + 1} rpost={showVids vis}+N rpcnt={cnt + 1} next={nextSuffix fs}{tornMark}" ++
               s!" sfm={orDash sfms ";"} sm={orDash sms ";"} tw={orDash tw "|"} tc={orDash tc ","} col={orDash cl ";"} alt={showVids alt}"
     | _ => "bad-op"
   | _ => "bad-op"
